@@ -168,6 +168,13 @@ func capClass(n int64) string {
 }
 
 func drawCase(t *rapid.T, maxRecipe, maxHist int) *Case {
+	return drawCaseN(t, maxRecipe, 2, maxHist)
+}
+
+// drawCaseN: minHist > 2 gives the long histories of the 'marathon' sub-check
+// (hundreds of mostly distinct queries on one handle: tables that grow with
+// the number of distinct queries, n-th call effects, full cache turnover).
+func drawCaseN(t *rapid.T, maxRecipe, minHist, maxHist int) *Case {
 	c := &Case{}
 	c.Data = *gen.Dataset(t, gen.DataOpts{MaxRows: 30, MaxRecipeN: maxRecipe, RecipeProb: 15})
 	c.Writer = rapid.IntRange(0, fix.NWriters-1).Draw(t, "writer")
@@ -176,7 +183,7 @@ func drawCase(t *rapid.T, maxRecipe, maxHist int) *Case {
 	d := model.NewData(c.Data.Rows())
 	pool := gen.NewLeafPool(d)
 	var exprs []model.Expr
-	n := rapid.IntRange(2, maxHist).Draw(t, "nhist")
+	n := rapid.IntRange(minHist, maxHist).Draw(t, "nhist")
 	for i := 0; i < n; i++ {
 		var q Q
 		k := rapid.IntRange(0, 9).Draw(t, "act")
@@ -219,6 +226,7 @@ func replay(cf *evid.CaseFile) error {
 func TestQuick(t *testing.T) {
 	fix.Pinned(t, prop, replay)
 	fix.Check(t, "history", 2000, func(rt *rapid.T) { run(rt, drawCase(rt, 6000, 25)) })
+	fix.Check(t, "marathon", 4, func(rt *rapid.T) { run(rt, drawCaseN(rt, 3000, 300, 900)) })
 }
 
 func TestThorough(t *testing.T) {
@@ -226,6 +234,7 @@ func TestThorough(t *testing.T) {
 		fix.Pinned(t, prop, replay)
 	}
 	fix.Check(t, "history", 2500, func(rt *rapid.T) { run(rt, drawCase(rt, 70000, 60)) })
+	fix.Check(t, "marathon", 10, func(rt *rapid.T) { run(rt, drawCaseN(rt, 6000, 500, 3000)) })
 }
 
 func TestReplay(t *testing.T) {
